@@ -3,19 +3,20 @@
 (* decide on the design itself.  Four independent checks, selected by the cfg:     *)
 (*   BspTables_rle.cfg    laws of the run-length code over the MC family           *)
 (*   BspTables_mc.cfg     the table machine (find_or_insert / find_or_extend on    *)
-(*                        one shared list) with the DESIGN's find_or_extend:       *)
-(*                        indexes handed out stay valid (claims), prefix stable    *)
-(*   BspTables_edges.cfg  the same machine with find_or_extend AS WRITTEN, every   *)
-(*                        transition printed for the replay on the real functions  *)
-(*   BspTables_diag.cfg   where the transcription deviates from the design, the    *)
-(*                        static prop size table, and small cross-reference worlds *)
-(*                        (printed for the replay on real BSP objects)             *)
+(*                        one shared list): indexes handed out stay valid          *)
+(*                        (claims), tables only grow                               *)
+(*   BspTables_edges.cfg  the same machine, every transition printed for the       *)
+(*                        replay on the real functions                             *)
+(*   BspTables_diag.cfg   the laws of the index builders over all small tables     *)
+(*                        (must hold everywhere; the excluded tail-prefix variant  *)
+(*                        must break them), the static prop size table, and small  *)
+(*                        cross-reference worlds (printed for the replay on real   *)
+(*                        BSP objects)                                             *)
 EXTENDS BspTablesOps, Json
 
 CONSTANTS Items,      \* object names of the table machine
           MaxLen,     \* longest table
-          MaxSub,     \* longest sub-list handed to find_or_extend
-          UseDesign   \* TRUE: FoEDesign, FALSE: FoE as written
+          MaxSub      \* longest sub-list handed to find_or_extend
 
 (* ---- 1. run-length code ------------------------------------------------------ *)
 RleVals == {0, 1, 255}
@@ -42,7 +43,7 @@ RleFamSize == PrintT(ToJson([tag |-> "FAMILY", rle |-> Cardinality(RleFam)]))
 (* ---- 2. the table machine ------------------------------------------------------ *)
 Id == Ident(Items)
 SubLists == UNION {[1..n -> Items] : n \in 0..MaxSub}
-Ext(t, items) == IF UseDesign THEN FoEDesign(t, Id, items) ELSE FoE(t, Id, items)
+Ext(t, items) == FoE(t, Id, items)
 
 TblInit == b = <<>> /\ tbl \in UNION {[1..n -> Items] : n \in 0..2} /\ claims = {} /\ act = [op |-> "init"]
 \* claims: indexes handed out earlier.  Remembering all of them makes the state space explode, and
@@ -77,10 +78,12 @@ Emit == PrintT(ToJson([tag |-> "EDGE", s |-> tbl, a |-> act', t |-> tbl']))
 
 (* ---- 3. diagnosis --------------------------------------------------------------- *)
 SmallTables == UNION {[1..n -> Items] : n \in 0..MaxLen}
-Deviating == {p \in SmallTables \X SubLists : FoE(p[1], Id, p[2]) # FoEDesign(p[1], Id, p[2])}
-\* every deviation is of one shape: the match was accepted at a position where the table ends
-\* before the sub-list does
-TailOnly == \A p \in Deviating : LET r == FoE(p[1], Id, p[2]) IN r.res + Len(p[2]) > Len(p[1]) /\ r.tbl = p[1]
+\* the laws hold for every table and argument of the bounded domain ...
+FoeLawBroken == {p \in SmallTables \X SubLists : ~ExtendLaw(p[1], Id, p[2], FoE(p[1], Id, p[2]))}
+FoiLawBroken == {p \in SmallTables \X Items : ~InsertLaw(p[1], Id, p[2], FoI(p[1], Id, p[2]))}
+\* ... and they are not vacuous: the excluded variant breaks ExtendLaw exactly where it differs
+TailCases == {p \in SmallTables \X SubLists : FoETailPrefix(p[1], Id, p[2]) # FoE(p[1], Id, p[2])}
+TailCaught == \A p \in TailCases : ~ExtendLaw(p[1], Id, p[2], FoETailPrefix(p[1], Id, p[2]))
 
 (* small cross-reference worlds for the replay: two planes, up to two faces and a node tree, the    *)
 (* assigned tables vary over sub-sequences with and without the referenced objects                   *)
@@ -110,10 +113,9 @@ Worlds == {World(pt, et, l1, l2, ft, nf, c1, c2) :
               c1 \in {"l1", "n2"}, c2 \in {"l2"}}
 
 Diag ==
-    /\ PrintT(ToJson([tag |-> "DIAG", what |-> "foe", deviating |-> Cardinality(Deviating), tailOnly |-> TailOnly,
-                      cases |-> Cardinality(SmallTables \X SubLists),
-                      witness |-> IF Deviating = {} THEN <<>> ELSE CHOOSE p \in Deviating : \A q \in Deviating :
-                                      Len(p[1]) + Len(p[2]) <= Len(q[1]) + Len(q[2])]))
+    /\ PrintT(ToJson([tag |-> "DIAG", what |-> "foe", lawBroken |-> Cardinality(FoeLawBroken) + Cardinality(FoiLawBroken),
+                      cases |-> Cardinality(SmallTables \X SubLists), tailCases |-> Cardinality(TailCases),
+                      tailCaught |-> TailCaught]))
     /\ PrintT(ToJson([tag |-> "DIAG", what |-> "propsize", sizes |-> [f \in PropFormats |-> PropSize(f)]]))
     /\ \A w \in Worlds : PrintT(ToJson([tag |-> "WORLD", w |-> w]))
     /\ PrintT(ToJson([tag |-> "DIAGDONE", worlds |-> Cardinality(Worlds)]))
